@@ -280,6 +280,10 @@ func (s *Scan) NewResponse() proto.Message {
 func (s *Scan) DeserializeCellBlocks(m proto.Message, b []byte) (uint32, error) {
 	scanResp := m.(*pb.ScanResponse)
 	partials := scanResp.GetPartialFlagPerResult()
+	if len(partials) != len(scanResp.GetCellsPerResult()) {
+		return 0, fmt.Errorf("scan response has %d cells_per_result but %d partial_flag_per_result",
+			len(scanResp.GetCellsPerResult()), len(partials))
+	}
 	scanResp.Results = make([]*pb.Result, len(partials))
 	var readLen uint32
 	for i, numCells := range scanResp.GetCellsPerResult() {
